@@ -6,8 +6,8 @@
    address encoders; pbkdf2/scrypt/utf8; the ed25519 validity test [on_curve]; Solana address decoding. *)
 From Coq Require Import NArith ZArith List Bool.
 From BU Require Import Base.Exn Base.Radix Base.Bytes Gen.Consts Gen.SerbipConsts Model.Base58 Model.WifCodec
-  Model.Electrum Model.Brainwallet Model.SplToken.
-From BU Require Lemmas.SerbipConstsOk Lemmas.Electrum Lemmas.SplToken.
+  Model.ElectrumWallet Model.Brainwallet Model.SplToken.
+From BU Require Lemmas.SerbipConstsOk Lemmas.ElectrumWallet Lemmas.SplToken.
 Import ListNotations.
 Open Scope N_scope.
 
@@ -15,24 +15,24 @@ Open Scope N_scope.
 Theorem dec_str_is_decimal : forall n,
   Forall (fun c => 48 <= c <= 57) (dec_str n) /\ from_be 10 (map (fun c => c - 48) (dec_str n)) = n /\ dec_str n <> [].
 Proof.
-  intros n. split; [exact (Lemmas.Electrum.dec_str_digits n)|].
-  split; [exact (Lemmas.Electrum.dec_str_value n)|exact (Lemmas.Electrum.dec_str_nonempty n)].
+  intros n. split; [exact (Lemmas.ElectrumWallet.dec_str_digits n)|].
+  split; [exact (Lemmas.ElectrumWallet.dec_str_value n)|exact (Lemmas.ElectrumWallet.dec_str_nonempty n)].
 Qed.
 Print Assumptions dec_str_is_decimal.
 
 Theorem dec_str_injective : forall a b, dec_str a = dec_str b -> a = b.
-Proof. exact Lemmas.Electrum.dec_str_inj. Qed.
+Proof. exact Lemmas.ElectrumWallet.dec_str_inj. Qed.
 Print Assumptions dec_str_injective.
 
 Theorem dec_str_canonical : forall n c t, n <> 0 -> dec_str n = c :: t -> c <> 48.
-Proof. exact Lemmas.Electrum.dec_str_no_leading_zero. Qed.
+Proof. exact Lemmas.ElectrumWallet.dec_str_no_leading_zero. Qed.
 Print Assumptions dec_str_canonical.
 
 (* the hashed text "index:change:" || tail determines (index, change, tail) *)
 Theorem v1_sequence_text_injective : forall i c t i' c' t',
   dec_str i ++ [58] ++ dec_str c ++ [58] ++ t = dec_str i' ++ [58] ++ dec_str c' ++ [58] ++ t' ->
   i = i' /\ c = c' /\ t = t'.
-Proof. exact Lemmas.Electrum.seq_preimage_inj. Qed.
+Proof. exact Lemmas.ElectrumWallet.seq_preimage_inj. Qed.
 Print Assumptions v1_sequence_text_injective.
 
 (* ---------------------------------------------------------------- Electrum v1 *)
@@ -60,7 +60,7 @@ Section V1.
     (v = 0 -> get_priv (V1Priv G k) (Z.of_N c) (Z.of_N i) = Err ValueError) /\
     (v <> 0 -> exists kb, get_priv (V1Priv G k) (Z.of_N c) (Z.of_N i) = Ok kb /\ length kb = 32%nat /\
                           be_to_int kb = v /\ secp_priv_valid kb = true).
-  Proof. exact (Lemmas.Electrum.electrum_v1_child sha256 G base smul ser_u). Qed.
+  Proof. exact (Lemmas.ElectrumWallet.electrum_v1_child sha256 G base smul ser_u). Qed.
 
   Theorem electrum_v1_commutes :
     (forall a b P, smul (a + b) P = add (smul a P) (smul b P)) ->
@@ -69,18 +69,18 @@ Section V1.
     get_priv (V1Priv G k) c i = Ok kb ->
     get_pub (V1Pub G (smul (be_to_int k) base)) c i = Ok R ->
     smul (be_to_int kb) base = R.
-  Proof. exact (Lemmas.Electrum.electrum_v1_commutes sha256 G base smul add is_inf ser_u). Qed.
+  Proof. exact (Lemmas.ElectrumWallet.electrum_v1_commutes sha256 G base smul add is_inf ser_u). Qed.
 
   Theorem electrum_v1_pub_of_priv : forall k c i,
     get_pub (V1Priv G k) c i = (kb <- get_priv (V1Priv G k) c i ;; Ok (smul (be_to_int kb) base)).
-  Proof. exact (Lemmas.Electrum.electrum_v1_pub_of_priv sha256 G base smul add is_inf ser_u). Qed.
+  Proof. exact (Lemmas.ElectrumWallet.electrum_v1_pub_of_priv sha256 G base smul add is_inf ser_u). Qed.
 
   Theorem v1_address_uncompressed : forall w c i, get_addr w c i = (P <- get_pub w c i ;; Ok (p2pkh_u P)).
-  Proof. exact (Lemmas.Electrum.v1_address_uncompressed sha256 G base smul add is_inf ser_u p2pkh_u). Qed.
+  Proof. exact (Lemmas.ElectrumWallet.v1_address_uncompressed sha256 G base smul add is_inf ser_u p2pkh_u). Qed.
 
   Theorem electrum_v1_index_range : forall w c i, (c < 0 \/ 4294967295 < c \/ i < 0 \/ 4294967295 < i)%Z ->
     get_pub w c i = Err ValueError.
-  Proof. exact (Lemmas.Electrum.electrum_v1_index_range sha256 G base smul add is_inf ser_u). Qed.
+  Proof. exact (Lemmas.ElectrumWallet.electrum_v1_index_range sha256 G base smul add is_inf ser_u). Qed.
 End V1.
 Print Assumptions electrum_v1_child.
 Print Assumptions electrum_v1_commutes.
@@ -96,12 +96,12 @@ Section V2.
 
   Theorem electrum_v2_std_path : forall m c i, c <= 4294967295 -> i <= 4294967295 ->
     v2_std_derive obj ckd m (IdxInt (Z.of_N c)) (IdxInt (Z.of_N i)) = (o1 <- ckd m c ;; ckd o1 i).
-  Proof. exact (Lemmas.Electrum.electrum_v2_std_path obj ckd). Qed.
+  Proof. exact (Lemmas.ElectrumWallet.electrum_v2_std_path obj ckd). Qed.
 
   Theorem segwit_path : forall m c i, obj_depth m = 0 -> c <= 4294967295 -> i <= 4294967295 ->
     (acc <- v2_segwit_new obj ckd obj_depth m ;; v2_segwit_derive obj ckd acc (IdxInt (Z.of_N c)) (IdxInt (Z.of_N i))) =
     derive obj ckd m [2147483648; c; i].
-  Proof. exact (Lemmas.Electrum.electrum_v2_segwit_path obj ckd obj_depth). Qed.
+  Proof. exact (Lemmas.ElectrumWallet.electrum_v2_segwit_path obj ckd obj_depth). Qed.
 
   (* the property's clause "index arguments of every documented type are honoured", true of the model; the
      implementation raises TypeError for Bip32KeyIndex arguments (finding F7, surfaced by the correspondence run) *)
@@ -109,12 +109,12 @@ Section V2.
     v2_std_derive obj ckd m (IdxObj n1) (IdxObj n2) = v2_std_derive obj ckd m (IdxInt (Z.of_N n1)) (IdxInt (Z.of_N n2)) /\
     v2_std_derive obj ckd m (IdxObj n1) (IdxInt (Z.of_N n2)) = v2_std_derive obj ckd m (IdxInt (Z.of_N n1)) (IdxInt (Z.of_N n2)) /\
     v2_segwit_derive obj ckd m (IdxObj n1) (IdxObj n2) = v2_segwit_derive obj ckd m (IdxInt (Z.of_N n1)) (IdxInt (Z.of_N n2)).
-  Proof. exact (Lemmas.Electrum.index_types_honoured obj ckd). Qed.
+  Proof. exact (Lemmas.ElectrumWallet.index_types_honoured obj ckd). Qed.
 
   Theorem electrum_v2_index_range : forall m c i, (c < 0 \/ 4294967295 < c \/ i < 0 \/ 4294967295 < i)%Z ->
     v2_std_derive obj ckd m (IdxInt c) (IdxInt i) = Err (LibError Bip32PathError) /\
     v2_segwit_derive obj ckd m (IdxInt c) (IdxInt i) = Err (LibError Bip32PathError).
-  Proof. exact (Lemmas.Electrum.electrum_v2_index_range obj ckd). Qed.
+  Proof. exact (Lemmas.ElectrumWallet.electrum_v2_index_range obj ckd). Qed.
 End V2.
 Print Assumptions electrum_v2_std_path.
 Print Assumptions segwit_path.
